@@ -97,6 +97,11 @@ DoNestedSet(P, s, c, k, f, x) ==
           ELSE s)
     ELSE Signal([s EXCEPT !.kv = KvPut(s.kv, k, DictPut(Value(s, k), f, x))], k)
 
+(* store[k] = store[k]   (the engine's update idiom: fetch the record, change it in place, assign it back --  *)
+(* for the file store the assignment is what writes the pending nested updates through)                       *)
+DoWriteBack(P, s, c, k) ==
+    IF Present(s, k) THEN SyncFile(P, s) ELSE s
+
 (* store[k].append(x)   (the view asks for the length, then pushes) *)
 DoAppend(P, s, c, k, x) ==
     IF ~EmptyIsAbsent(P)
@@ -148,6 +153,7 @@ Step(P, s, o) ==
     CASE o.op = "Set" -> DoSet(P, s, o.c, o.k, o.v)
       [] o.op = "NestedSet" -> DoNestedSet(P, s, o.c, o.k, o.f, o.v)
       [] o.op = "Append" -> DoAppend(P, s, o.c, o.k, o.v)
+      [] o.op = "WriteBack" -> DoWriteBack(P, s, o.c, o.k)
       [] o.op = "Get" -> DoGet(P, s, o.c, o.k)
       [] o.op = "CachedGet" -> DoCachedGet(P, s, o.c, o.k)
       [] o.op = "Del" -> DoDel(P, s, o.c, o.k)
@@ -170,6 +176,7 @@ Expected(P, s, o) ==
     CASE o.op \in {"Set", "SetTtl", "Reopen", "DeliverInvalidation"} -> RNone
       [] o.op \in {"NestedSet", "Append"} ->
             IF ~EmptyIsAbsent(P) /\ ~Present(s, o.k) THEN RKeyError ELSE RNone
+      [] o.op = "WriteBack" -> IF Present(s, o.k) THEN RNone ELSE RKeyError
       [] o.op = "Get" ->
             IF EmptyIsAbsent(P) THEN RValue(Value(s, o.k))
             ELSE IF Present(s, o.k) THEN RValue(s.kv[o.k]) ELSE RKeyError
@@ -192,6 +199,7 @@ Enabled(P, s, o) ==
     /\ (P.nkeys = 1 => o.k \in {"", "k1"})
     /\ CASE o.op = "Set" -> o.v \in 1..3
          [] o.op = "NestedSet" -> P.shape = "dict" /\ <<o.f, o.v>> \in NestedArgs
+         [] o.op = "WriteBack" -> ~HasCache(P) /\ ~P.lite
          [] o.op = "Append" -> P.shape = "list" /\ o.v \in Scalars /\ Len(Value(s, o.k)) < P.maxlen
          [] o.op = "SetTtl" -> ~P.ttl1 \/ o.k = "k1"
          [] o.op = "DeliverInvalidation" -> HasCache(P) /\ s.inflight[o.c] # <<>>
